@@ -113,6 +113,14 @@ func (s *StrategyChoiceModule) set(interest *spec.Interest, pitToken []byte, inF
 		return
 	}
 
+	if len(params.Strategy.Name) > len(s.strategyPrefix)+2 {
+		// Strategies take no parameters: nothing may follow the version component
+		core.LogWarn(s, "Unknown Strategy=", params.Strategy.Name, " in ControlParameters for Interest=", interest.Name())
+		response = makeControlResponse(404, "Unknown strategy", nil)
+		s.manager.sendResponse(response, interest, pitToken, inFace)
+		return
+	}
+
 	// Add/verify version information for strategy
 	strategyVersion := availableVersions[0]
 	for _, version := range availableVersions {
